@@ -16,6 +16,7 @@ import (
 	"sort"
 	"strings"
 	"time"
+	"unicode/utf8"
 
 	"github.com/Vedant9500/WTF/internal/utils"
 )
@@ -112,8 +113,32 @@ func (sh *SearchHistory) Save() error {
 	return nil
 }
 
+// storedForm returns s as encoding/json will write and read it: every invalid byte
+// becomes U+FFFD.
+func storedForm(s string) string {
+	if utf8.ValidString(s) {
+		return s
+	}
+	var b strings.Builder
+	for i := 0; i < len(s); {
+		r, n := utf8.DecodeRuneInString(s[i:])
+		if r == utf8.RuneError && n == 1 {
+			b.WriteRune(utf8.RuneError)
+		} else {
+			b.WriteString(s[i : i+n])
+		}
+		i += n
+	}
+	return b.String()
+}
+
 // AddEntry adds a new search entry to the history
 func (sh *SearchHistory) AddEntry(query string, resultsCount int, context string, duration time.Duration) {
+	// The file is JSON, which cannot hold invalid UTF-8: keep the query in the form it will
+	// read back in, so an entry is the same before and after a save and an immediately
+	// repeated query still matches it.
+	query = storedForm(query)
+
 	entry := SearchEntry{
 		Query:        query,
 		Timestamp:    time.Now(),
